@@ -9,17 +9,96 @@ import Edn.Model.Reader
 namespace Edn.Proofs
 open Edn.Model Edn.Spec
 
+/-! ### helpers -/
+
+theorem hashV_setMd (cfg : Cfg) (v : Val) (m : Option Val) : hashV cfg (v.setMd m) = hashV cfg v := by
+  cases v <;> rfl
+theorem depth_setMd (v : Val) (m : Option Val) : depth (v.setMd m) = depth v := by cases v <;> rfl
+theorem body_setMd_left (cfg : Cfg) (p : Val → Val → Bool) (v b : Val) (m : Option Val) :
+    body cfg p (v.setMd m) b = body cfg p v b := by cases v <;> rfl
+theorem body_setMd_right (cfg : Cfg) (p : Val → Val → Bool) (v b : Val) (m : Option Val) :
+    body cfg p b (v.setMd m) = body cfg p b v := by cases b <;> cases v <;> rfl
+
+theorem eqvF_setMd_left (cfg : Cfg) (f : Nat) (v b : Val) (m : Option Val) :
+    eqvF cfg f (v.setMd m) b = eqvF cfg f v b := by
+  cases f with
+  | zero => rfl
+  | succ f => rw [eqvF_succ, eqvF_succ, body_setMd_left]
+
+theorem eqvF_setMd_right (cfg : Cfg) (f : Nat) (v b : Val) (m : Option Val) :
+    eqvF cfg f b (v.setMd m) = eqvF cfg f b v := by
+  cases f with
+  | zero => rfl
+  | succ f => rw [eqvF_succ, eqvF_succ, body_setMd_right]
+
+theorem keepOld_cons (cfg : Cfg) (newKs : List Val) (k v : Val) (ks vs : List Val) :
+    keepOld cfg newKs (k :: ks) (v :: vs) =
+      if newKs.any (fun nk => equal cfg k nk) then keepOld cfg newKs ks vs
+      else (k :: (keepOld cfg newKs ks vs).1, v :: (keepOld cfg newKs ks vs).2) := by
+  rw [keepOld]
+
+theorem findKey_cons (p : Val → Val → Bool) (k k' v' : Val) (ks vs : List Val) :
+    findKey p k (k' :: ks) (v' :: vs) = if p k k' then some v' else findKey p k ks vs := rfl
+
+theorem findKey_append (p : Val → Val → Bool) (k : Val) (ks2 vs2 : List Val) :
+    ∀ (ks vs : List Val), ks.length = vs.length →
+    findKey p k (ks ++ ks2) (vs ++ vs2) =
+      match findKey p k ks vs with
+      | some v => some v
+      | none => findKey p k ks2 vs2 := by
+  intro ks
+  induction ks with
+  | nil =>
+    intro vs hl
+    cases vs with
+    | nil => rfl
+    | cons v vs => simp at hl
+  | cons k' ks ih =>
+    intro vs hl
+    cases vs with
+    | nil => simp at hl
+    | cons v' vs =>
+      have hl' : ks.length = vs.length := by simpa using hl
+      show findKey p k (k' :: (ks ++ ks2)) (v' :: (vs ++ vs2)) = _
+      rw [findKey_cons, findKey_cons]
+      cases hp : p k k' with
+      | true => rfl
+      | false => exact ih vs hl'
+
+theorem findKey_none_all (p : Val → Val → Bool) (k : Val) :
+    ∀ (ks vs : List Val), ks.length = vs.length → findKey p k ks vs = none →
+    ∀ k' ∈ ks, p k k' = false := by
+  intro ks
+  induction ks with
+  | nil => intro vs _ _ k' hk'; cases hk'
+  | cons k0 ks ih =>
+    intro vs hl hf k' hk'
+    cases vs with
+    | nil => simp at hl
+    | cons v0 vs =>
+      have hl' : ks.length = vs.length := by simpa using hl
+      rw [findKey_cons] at hf
+      cases hp : p k k0 with
+      | true => rw [hp] at hf; cases hf
+      | false =>
+        rw [hp] at hf
+        rcases List.mem_cons.mp hk' with h | h
+        · rw [h]; exact hp
+        · exact ih vs hl' hf k' h
+
 /-- metadata never participates in equality, hashing or depth -/
 theorem setMd_transparent (cfg : Cfg) (v : Val) (m : Option Val) :
     hashV cfg (v.setMd m) = hashV cfg v ∧ depth (v.setMd m) = depth v ∧
     (∀ f b, eqvF cfg f (v.setMd m) b = eqvF cfg f v b) ∧ (∀ f b, eqvF cfg f b (v.setMd m) = eqvF cfg f b v) := by
-  sorry
+  exact ⟨hashV_setMd cfg v m, depth_setMd v m, fun f b => eqvF_setMd_left cfg f v b m,
+    fun f b => eqvF_setMd_right cfg f v b m⟩
 
 /-- changing only the start of the source range (as `edn_read_metadata` does) is invisible too -/
 theorem setHdr_transparent (cfg : Cfg) (v : Val) (h : Hdr) (hc : h.hc = v.hdr.hc) :
     hashV cfg (v.setHdr h) = hashV cfg v ∧ depth (v.setHdr h) = depth v ∧
     (∀ f b, eqvF cfg f (v.setHdr h) b = eqvF cfg f v b) ∧ (∀ f b, eqvF cfg f b (v.setHdr h) = eqvF cfg f b v) := by
-  sorry
+  exact ⟨hashV_setHdr cfg v h, depth_setHdr v h, fun f b => eqvF_setHdr_left cfg f v b h,
+    fun f b => eqvF_setHdr_right cfg f v b h⟩
 
 /-- hypotheses on annotation keys: what the reader guarantees for them -/
 def KeysOK (cfg : Cfg) (ks : List Val) : Prop := Elems cfg ks ∧ pairwiseDistinct cfg ks
@@ -31,14 +110,108 @@ theorem keepOld_spec (cfg : Cfg) (newKs : List Val) : ∀ (ks vs : List Val), ks
     (∀ k ∈ (keepOld cfg newKs ks vs).1, k ∈ ks ∧ ∀ nk ∈ newKs, ¬ Eqv cfg k nk) ∧
     (∀ k ∈ ks, (∀ nk ∈ newKs, ¬ Eqv cfg k nk) → k ∈ (keepOld cfg newKs ks vs).1) ∧
     (keepOld cfg newKs ks vs).1.Sublist ks := by
-  sorry
+  intro ks
+  induction ks with
+  | nil =>
+    intro vs _ _ _
+    have e : keepOld cfg newKs [] vs = ([], []) := by rw [keepOld]; intros; contradiction
+    rw [e]
+    exact ⟨rfl, fun k hk => (by cases hk), fun k hk => (by cases hk), List.Sublist.refl _⟩
+  | cons k ks ih =>
+    intro vs hl hn ho
+    cases vs with
+    | nil => simp at hl
+    | cons v vs =>
+      have hl' : ks.length = vs.length := by simpa using hl
+      obtain ⟨i1, i2, i3, i4⟩ := ih vs hl' hn ho.tail
+      have hk := ho k List.mem_cons_self
+      have heq : ∀ nk ∈ newKs, (equal cfg k nk = true ↔ Eqv cfg k nk) := fun nk hnk =>
+        equal_iff_Eqv cfg k nk hk.1 (hn nk hnk).1 hk.2.1 (hn nk hnk).2.1 hk.2.2 (hn nk hnk).2.2
+      rw [keepOld_cons]
+      cases hany : newKs.any (fun nk => equal cfg k nk) with
+      | true =>
+        rw [if_pos rfl]
+        obtain ⟨nk0, hnk0, he0⟩ := List.any_eq_true.mp hany
+        refine ⟨i1, ?_, ?_, i4.trans (List.sublist_cons_self _ _)⟩
+        · intro k' hk'
+          exact ⟨List.mem_cons_of_mem _ (i2 k' hk').1, (i2 k' hk').2⟩
+        · intro k' hk' hno
+          rcases List.mem_cons.mp hk' with h | h
+          · subst h
+            exact absurd ((heq nk0 hnk0).mp he0) (hno nk0 hnk0)
+          · exact i3 k' h hno
+      | false =>
+        rw [if_neg (by simp)]
+        have hall := List.any_eq_false.mp hany
+        refine ⟨by simp [i1], ?_, ?_, i4.cons_cons _⟩
+        · intro k' hk'
+          rcases List.mem_cons.mp hk' with h | h
+          · subst h
+            exact ⟨List.mem_cons_self, fun nk hnk he => hall nk hnk ((heq nk hnk).mpr he)⟩
+          · exact ⟨List.mem_cons_of_mem _ (i2 k' h).1, (i2 k' h).2⟩
+        · intro k' hk' hno
+          rcases List.mem_cons.mp hk' with h | h
+          · subst h; exact List.mem_cons_self
+          · exact List.mem_cons_of_mem _ (i3 k' h hno)
 
 /-- the merged key list is duplicate-free again: new keys first (outer annotation wins), then
     the surviving old ones -/
 theorem merged_keys_distinct (cfg : Cfg) (newKs newVs ks vs : List Val) (hl : ks.length = vs.length)
     (hn : KeysOK cfg newKs) (ho : KeysOK cfg ks) :
     pairwiseDistinct cfg (newKs ++ (keepOld cfg newKs ks vs).1) := by
-  sorry
+  obtain ⟨_, s2, _, s4⟩ := keepOld_spec cfg newKs ks vs hl hn.1 ho.1
+  unfold pairwiseDistinct
+  rw [List.pairwise_append]
+  refine ⟨hn.2, List.Pairwise.sublist s4 ho.2, ?_⟩
+  intro a ha b hb
+  have hb' := s2 b hb
+  have hnab : ¬ Eqv cfg b a := hb'.2 a ha
+  exact ⟨fun he => hnab (Eqv_symm cfg a b (hn.1 a ha).2.1 (ho.1 b hb'.1).2.1 he), hnab⟩
+
+/-- searching the surviving old entries is the same as searching all old entries, for a probe
+    that is equal to no new key -/
+theorem keepOld_findKey (cfg : Cfg) (newKs : List Val) (probe : Val) (hn : Elems cfg newKs)
+    (hp : WF cfg probe) (hpd : depth probe < maxDepthFuel) (hpc : cacheOK cfg probe = true)
+    (hnone : ∀ nk ∈ newKs, equal cfg probe nk = false) :
+    ∀ (ks vs : List Val), ks.length = vs.length → Elems cfg ks →
+    findKey (fun k' k => equal cfg k' k) probe (keepOld cfg newKs ks vs).1 (keepOld cfg newKs ks vs).2
+      = findKey (fun k' k => equal cfg k' k) probe ks vs := by
+  intro ks
+  induction ks with
+  | nil =>
+    intro vs _ _
+    have e : keepOld cfg newKs [] vs = ([], []) := by rw [keepOld]; intros; contradiction
+    rw [e]; rfl
+  | cons k ks ih =>
+    intro vs hl ho
+    cases vs with
+    | nil => simp at hl
+    | cons v vs =>
+      have hl' : ks.length = vs.length := by simpa using hl
+      have ih' := ih vs hl' ho.tail
+      have hk := ho k List.mem_cons_self
+      rw [keepOld_cons, findKey_cons]
+      cases hany : newKs.any (fun nk => equal cfg k nk) with
+      | true =>
+        rw [if_pos rfl, ih']
+        obtain ⟨nk0, hnk0, he0⟩ := List.any_eq_true.mp hany
+        have hnk := hn nk0 hnk0
+        have e1 : Eqv cfg k nk0 :=
+          (equal_iff_Eqv cfg k nk0 hk.1 hnk.1 hk.2.1 hnk.2.1 hk.2.2 hnk.2.2).mp he0
+        cases hpk : equal cfg probe k with
+        | false => simp
+        | true =>
+          exfalso
+          have e2 : Eqv cfg probe k :=
+            (equal_iff_Eqv cfg probe k hpd hk.1 hp hk.2.1 hpc hk.2.2).mp hpk
+          have e3 := Eqv_trans cfg probe k nk0 hp hk.2.1 hnk.2.1 e2 e1
+          have := (equal_iff_Eqv cfg probe nk0 hpd hnk.1 hp hnk.2.1 hpc hnk.2.2).mpr e3
+          rw [hnone nk0 hnk0] at this
+          cases this
+      | false =>
+        rw [if_neg (by simp)]
+        show findKey _ probe (k :: _) (v :: _) = _
+        rw [findKey_cons, ih']
 
 /-- looking a key up in the merged map: the new annotation's value if it has the key,
     otherwise the old one's (outer wins) -/
@@ -50,6 +223,13 @@ theorem merged_lookup (cfg : Cfg) (newKs newVs ks vs : List Val) (probe : Val)
       = match findKey (fun k' k => equal cfg k' k) probe newKs newVs with
         | some v => some v
         | none => findKey (fun k' k => equal cfg k' k) probe ks vs := by
-  sorry
+  have hlk := (keepOld_spec cfg newKs ks vs hl hn.1 ho.1).1
+  rw [findKey_append _ _ _ _ newKs newVs hln]
+  cases hf : findKey (fun k' k => equal cfg k' k) probe newKs newVs with
+  | some v => rfl
+  | none =>
+    show findKey _ probe (keepOld cfg newKs ks vs).1 (keepOld cfg newKs ks vs).2 = findKey _ probe ks vs
+    have hnone := findKey_none_all _ probe newKs newVs hln hf
+    exact keepOld_findKey cfg newKs probe hn.1 hp hpd hpc hnone ks vs hl ho.1
 
 end Edn.Proofs
